@@ -112,12 +112,34 @@ func Try(f func()) (p *Panic) {
 // debug.SetPanicOnFault(true) the fault is a recoverable panic that carries
 // the writer's stack.
 type Guarded struct {
-	B    []byte
-	mem  []byte
-	page int
+	B     []byte
+	mem   []byte
+	page  int
+	slack string
 }
 
-func NewGuarded(data []byte) (*Guarded, error) {
+// SlackIntact reports whether the bytes behind the slice (its spare capacity) are unchanged.
+func (g *Guarded) SlackIntact() bool {
+	return g.slack == "" || string(g.B[len(g.B):cap(g.B)]) == g.slack
+}
+
+func NewGuarded(data []byte) (*Guarded, error) { return NewGuardedSlack(data, nil) }
+
+// NewGuardedSlack is NewGuarded with spare capacity: the slice is followed,
+// inside the read-only pages, by the bytes of slack (what a caller who cut a
+// record out of a larger buffer has behind it) and cap(B) = len(data)+len(slack).
+// An append to the argument writes there and faults; Slack() tells whether
+// those bytes are still what they were.
+func NewGuardedSlack(data, slack []byte) (*Guarded, error) {
+	if len(slack) > 0 {
+		g, err := NewGuarded(append(append([]byte{}, data...), slack...))
+		if err != nil {
+			return nil, err
+		}
+		g.slack = string(slack)
+		g.B = g.B[:len(data):len(data)+len(slack)]
+		return g, nil
+	}
 	page := syscall.Getpagesize()
 	n := (len(data) + page - 1) / page
 	if n == 0 {
